@@ -3,6 +3,7 @@ import LyModel.XPath.Ast
 import LyModel.XPath.Str
 import LyModel.XPath.Num
 import LyModel.XPath.Comp
+import LyModel.XPath.Yang
 /-!
 # Denotational evaluator for XPath 1.0 on the YANG data model  (component `XpCore`, property C08)
 
@@ -46,12 +47,18 @@ structure Quirks where
   floorNonFinite : Bool := false
   /-- F264: two-argument `substring` with start −Infinity returns the empty string -/
   substrNegInf : Bool := false
+  /-- F355: a string compared with a typed terminal is first replaced by its canonical form in the type of that terminal
+      (`set_comp_canonize`) -/
+  canonStr : Bool := false
+  /-- F354: `deref()` of a leafref without target instance is an error instead of the empty node-set -/
+  derefErr : Bool := false
 deriving Inhabited, Repr
 
 def Quirks.ofMask (m : Nat) : Quirks :=
   { numFmt := m.testBit 0, strtold := m.testBit 1, truncFloor := m.testBit 2, bytes := m.testBit 3,
     predMerged := m.testBit 4, follPrec := m.testBit 5, nodeTests := m.testBit 6, predTrunc := m.testBit 7,
-    textQuirk := m.testBit 8, strContainer := m.testBit 9, nsBool := m.testBit 10, floorNonFinite := m.testBit 11, substrNegInf := m.testBit 12 }
+    textQuirk := m.testBit 8, strContainer := m.testBit 9, nsBool := m.testBit 10, floorNonFinite := m.testBit 11, substrNegInf := m.testBit 12,
+    canonStr := m.testBit 13, derefErr := m.testBit 14 }
 
 inductive Value (N : Type)
   | ns (l : List Ref)
@@ -61,16 +68,22 @@ inductive Value (N : Type)
 
 inductive Err
   | argType | invalidOp | unknownFn | arity
+  /-- RFC 7950 §10 functions: unknown module prefix of an identity / other LY_EVALID (identity not found, pattern does not
+      compile) / LY_EINVAL (`deref` without target) / the NULL module of finding F353 -/
+  | noModule | valid | inval | nullMod
 deriving Repr, DecidableEq
 
 def Err.name : Err → String
   | .argType => "ArgType" | .invalidOp => "InvalidOp" | .unknownFn => "UnknownFn" | .arity => "Arity"
+  | .noModule => "NoModule" | .valid => "Valid" | .inval => "Inval" | .nullMod => "NullMod"
 
 /-- static part of the evaluation context: document, semantics switches, the `current()` node -/
 structure Env where
   doc : Doc
   q : Quirks
   cur : Ref
+  /-- schema facts (`Yang.lean`); empty = a schema without identities, enumerations, leafrefs, typed terminals -/
+  facts : Facts := {}
 
 /-- dynamic part (REC §1): context node, context position, context size -/
 structure Cx where
@@ -161,10 +174,47 @@ def matchTest (env : Env) (ax : Axis) (t : Test) (x : Ref) : Bool :=
 def candidates (env : Env) (ax : Axis) (t : Test) (c : Ref) : List Ref :=
   env.all.filter fun x => env.inAxis ax c x && env.matchTest ax t x
 
+/-- canoniser of node `r` for `set_comp_canonize`: only an ELEMENT node that is a terminal with a `#type` fact has one -/
+def canonFor (env : Env) (r : Ref) (s : Bytes) : Bytes :=
+  match env.doc.elem? r with
+  | some e =>
+    if e.term then
+      match env.facts.types.lookup (env.doc.spath r) with
+      | some ty => Yang.canonize env.facts e.mod ty s
+      | none => s
+    else s
+  | none => s
+
+/-- a location path without predicates, evaluated from the node-set `s` (the form of a leafref path) -/
+def walk (env : Env) : List (Axis × Test) → List Ref → List Ref
+  | [], s => s
+  | (ax, t) :: rest, s => walk env rest (env.norm (s.flatMap (env.candidates ax t)))
+
+/-- module of the `current()` node (`set->cur_node->schema->module`), none for the root -/
+def curMod (env : Env) : Option Bytes := (env.doc.elem? env.cur).map (·.mod)
+
+/-- the instances a leafref terminal `x` refers to (RFC 7950 §9.9): the nodes its path selects from `x` that are terminals
+with the same value; `none` = `x` is not a leafref with a representable path -/
+def leafrefTargets (env : Env) (x : Ref) : Option (List Ref) :=
+  match env.doc.elem? x with
+  | some e =>
+    if e.term then
+      match env.facts.lrefs.lookup (env.doc.spath x) with
+      | some (abs, steps) =>
+        some ((env.walk steps [if abs then 0 else x]).filter fun y =>
+          match env.doc.elem? y with
+          | some t => t.term && t.value == e.value
+          | none => false)
+      | none => none
+    else none
+  | none => none
+
 end Env
 
 section
 variable {N : Type} [XNum N]
+
+def XNum.ofInt (i : Int) : N := if i < 0 then XNum.neg (XNum.ofNat i.natAbs) else XNum.ofNat i.natAbs
 
 def Value.toStr (env : Env) : Value N → Bytes
   | .ns [] => []
@@ -191,11 +241,18 @@ def Value.toOpnd (env : Env) : Value N → Comp.Opnd N
   | .num n => .num n
   | .bool b => .bool b
 
-/-- `= != < <= > >=`: REC §3.4 (`Comp.Spec.compare`); with switch F256 on, libyang's `moveto_op_comp` (`Comp.C.opComp`), which
+/-- `= != < <= > >=`: REC §3.4 (`Comp.Spec.compare`); with switch F355 on, `Comp.CZ.opComp` (canonisation of string operands); with switch F256 on, libyang's `moveto_op_comp` (`Comp.C.opComp`), which
 `Props.C08.compare_table_partial` shows to be the same function except on node-set × boolean. -/
+def Value.toOpndZ (env : Env) : Value N → Comp.CZ.OpndZ N
+  | .ns l => .ns (l.map fun r => ⟨env.strValue r, env.canonFor r⟩)
+  | .str s => .sc (.str s)
+  | .num n => .sc (.num n)
+  | .bool b => .sc (.bool b)
+
 def compare (env : Env) (op : BinOp) (a b : Value N) : Bool :=
   let c : Comp.Cfg := { numFmt := env.q.numFmt, strtold := env.q.strtold }
-  if env.q.nsBool then Comp.C.opComp c op (a.toOpnd env) (b.toOpnd env)
+  if env.q.canonStr then Comp.CZ.opComp c env.q.nsBool op (a.toOpndZ env) (b.toOpndZ env)
+  else if env.q.nsBool then Comp.C.opComp c op (a.toOpnd env) (b.toOpnd env)
   else Comp.Spec.compare c op (a.toOpnd env) (b.toOpnd env)
 
 def arith (op : BinOp) (a b : N) : N :=
@@ -245,7 +302,7 @@ def substring (env : Env) (s : Bytes) (a : N) (b : Option N) : Bytes :=
   Str.selectPos keep (Str.chars env.q.bytes s) 1
 
 /-- the core function library (REC §4) and `current`, `bit-is-set` of RFC 7950 §10, on evaluated arguments -/
-def callFn (env : Env) (cx : Cx) (f : String) (args : List (Value N)) : Except Err (Value N) :=
+def callCore (env : Env) (cx : Cx) (f : String) (args : List (Value N)) : Except Err (Value N) :=
   let ctxv : Value N := .ns [cx.node]
   match f, args with
   | "last", [] => pure (.num (XNum.ofNat cx.size))
@@ -300,6 +357,46 @@ def callFn (env : Env) (cx : Cx) (f : String) (args : List (Value N)) : Except E
       | none => pure (.bool false)
   | "bit-is-set", [_, _] => throw .argType
   | _, _ => throw .unknownFn
+
+/-- `derived-from(ns, string)` / `derived-from-or-self` (RFC 7950 §10.4): `xpath_derived_` -/
+def derivedFn (env : Env) (self : Bool) (l : List Ref) (name : Bytes) : Except Err (Value N) :=
+  match Yang.lookupIdent env.facts env.curMod name with
+  | .ok id => pure (.bool (Yang.derivedAny env.facts env.doc self id l))
+  | .noModule => throw .noModule
+  | .notFound => throw .valid
+  | .nullMod => throw .nullMod
+
+/-- `deref(ns)` (RFC 7950 §10.3.1) on a leafref: `xpath_deref` + `lyplg_type_resolve_leafref`.  instance-identifier values are not
+modelled (the first node then yields the empty set here). -/
+def derefFn (env : Env) (l : List Ref) : Except Err (Value N) :=
+  match l with
+  | [] => pure (.ns [])
+  | x :: _ =>
+    match env.leafrefTargets x with
+    | none => pure (.ns [])
+    | some ts => if env.q.derefErr && ts.isEmpty then throw .inval else pure (.ns (env.norm ts))
+
+/-- the functions of RFC 7950 §10 that need schema facts; `none` = not one of them -/
+def callYang (env : Env) (f : String) (args : List (Value N)) : Option (Except Err (Value N)) :=
+  match f, args with
+  | "derived-from", [.ns l, s] => some (derivedFn env false l (s.toStr env))
+  | "derived-from", [_, _] => some (throw .argType)
+  | "derived-from-or-self", [.ns l, s] => some (derivedFn env true l (s.toStr env))
+  | "derived-from-or-self", [_, _] => some (throw .argType)
+  | "enum-value", [.ns l] =>
+    some (pure (.num (match Yang.enumValue env.facts env.doc l with | some i => XNum.ofInt i | none => XNum.nan)))
+  | "enum-value", [_] => some (throw .argType)
+  | "re-match", [a, b] =>
+    some (match Yang.reMatch (a.toStr env) (b.toStr env) with | some r => pure (.bool r) | none => throw .valid)
+  | "deref", [.ns l] => some (derefFn env l)
+  | "deref", [_] => some (throw .argType)
+  | _, _ => none
+
+/-- function call on evaluated arguments: RFC 7950 §10 (`callYang`), else the core library (`callCore`) -/
+def callFn (env : Env) (cx : Cx) (f : String) (args : List (Value N)) : Except Err (Value N) :=
+  match callYang env f args with
+  | some r => r
+  | none => callCore env cx f args
 
 mutual
 /-- value of an expression in a context (REC §3) -/
